@@ -359,6 +359,16 @@ def T4(m, R):
                 len(st.body) == 1 and isinstance(st.body[0], ast.Return) and const_val(st.body[0].value) is False:
             lg = st
             break
+    conj_ret = None
+    if lg is None and body and isinstance(body[-1], ast.Return) and isinstance(body[-1].value, ast.BoolOp) and isinstance(body[-1].value.op, ast.And) and \
+            isinstance(body[-1].value.values[0], ast.Compare) and len(body[-1].value.values[0].ops) == 1:
+        # return <length test> and <element-wise test>: false exactly when the negated length test holds
+        c0 = body[-1].value.values[0]
+        from ..model import negate
+        lg = ast.If(test=negate(c0), body=[ast.Return(value=ast.Constant(value=False))], orelse=[])
+        ast.copy_location(lg, body[-1])
+        ast.fix_missing_locations(lg)
+        conj_ret = body[-1]
     if lg is None:
         R.viol(sf, sf.node, 'no length guard: a sequence shorter than the setup could match by zip() truncation', construct='length guard')
     else:
@@ -386,7 +396,8 @@ def T4(m, R):
     qform = False
     if not lok and isinstance(last, ast.Return):
         from ..shapes import quantifier
-        q = quantifier(last.value)
+        lv_ = last.value.values[-1] if conj_ret is not None and len(last.value.values) == 2 else last.value
+        q = quantifier(lv_)
         if q is not None:
             kind, it, tgt, pred = q
             if call_name(it) == 'zip' and {canon(a, sal) for a in it.args} == {'self.setup_seq', seq} and isinstance(tgt, ast.Tuple) and kind == 'all':
